@@ -13,7 +13,7 @@ package lexer
 // position of the current token in it, pointers the stack of saved positions.
 //@ pred tinv(tl *TLexer) bool := tl != nil && tl.writep == len(tl.stack) && -1 <= tl.readp && tl.readp <= tl.writep - 1
 //@     && (forall j :: 0 <= j && j < len(tl.pointers) ==> -1 <= tl.pointers[j] && tl.pointers[j] <= tl.writep - 1)
-//@     && (tl.lexer.eof ==> tl.writep >= 1)
+//@     && (tl.lexer.eof ==> tl.writep >= 1) && lwf(&tl.lexer) && (tl.writep == 0 ==> lclean(&tl.lexer))
 //@ pred cacheKept(tl *TLexer) bool := forall i :: 0 <= i && i < old(tl.writep) ==> tl.stack[i] == old(tl.stack[i])
 //@ pred pointersKept(tl *TLexer) bool := len(tl.pointers) == old(len(tl.pointers)) && (forall j :: 0 <= j && j < len(tl.pointers) ==> tl.pointers[j] == old(tl.pointers[j]))
 //
@@ -168,6 +168,7 @@ package lexer
 //@   ensures[inv_state] lstate(l, l.state)
 //@   ensures[inv_eof]   leof(l)
 //@   ensures[done]        old(l.eof) ==> !result
+//@   ensures[clean_false] old(lclean(l)) && !result ==> old(l.eof)
 //@   ensures[text_is_span;C14] result && l.Err == nil && !synthetic(l.Token) && l.Token.Type != token.StringLit ==> l.Token.Value == l.input[l.Token.From():l.Token.To()]
 //@   ensures[span;C14]     result && l.Err == nil && !synthetic(l.Token) ==> old(l.from) <= l.Token.From() && l.Token.From() <= l.Token.To() && l.Token.To() == l.from && l.from <= len(l.input)
 //@   ensures[nonempty;C14] old(lclean(l)) && result && l.Err == nil && !synthetic(l.Token) ==> l.Token.From() < l.Token.To()
